@@ -152,14 +152,13 @@ Proof.
   congruence.
 Qed.
 
-(* "{" or "{!" followed by a text that is neither empty, nor "}", nor the beginning of any
-   operation: a parse error, whatever follows.  (The debug marker itself is part of the
-   hypothesis: after "{" the text must not begin with "!" either.) *)
-Theorem unknown_operation_rejected (dbg : bool) (c : N) (w : str) :
-  N.eqb 125 c = false -> N.eqb 33 c = false -> begins_like_operation (c :: w) = false ->
+(* "{" or "{!" followed by a text that is not empty, does not begin with "}" or "!", and where no
+   operation list can be read: a parse error, whatever follows *)
+Lemma block_without_operation_rejected (dbg : bool) (c : N) (w : str) :
+  N.eqb 125 c = false -> N.eqb 33 c = false -> run r_operation_list false (c :: w) = None ->
   parse_template (123 :: (if dbg then [33] else []) ++ c :: w) = Err.
 Proof.
-  intros Hc1 Hc2 Hb. pose proof (operation_list_needs_a_name (c :: w) Hb) as Hol.
+  intros Hc1 Hc2 Hol.
   unfold parse_template, r_template. rewrite run_rule_normal, run_seq.
   destruct dbg.
   - change (123 :: [33] ++ c :: w) with ([123] ++ [33] ++ c :: w).
@@ -173,6 +172,17 @@ Proof.
     { unfold r_debug_flag. rewrite run_rule_atomic. rewrite (str_fail_head [] 33 true c w Hc2). reflexivity. }
     rewrite Hdbg, seq_res_some, run_seq, run_opt. fold r_operation_list. rewrite Hol, seq_res_some, run_seq.
     rewrite (str_fail_head [] 125 false c w Hc1). reflexivity.
+Qed.
+
+(* "{" or "{!" followed by a text that is neither empty, nor "}", nor the beginning of any
+   operation: a parse error, whatever follows.  (The debug marker itself is part of the
+   hypothesis: after "{" the text must not begin with "!" either.) *)
+Theorem unknown_operation_rejected (dbg : bool) (c : N) (w : str) :
+  N.eqb 125 c = false -> N.eqb 33 c = false -> begins_like_operation (c :: w) = false ->
+  parse_template (123 :: (if dbg then [33] else []) ++ c :: w) = Err.
+Proof.
+  intros Hc1 Hc2 Hb. apply block_without_operation_rejected; [exact Hc1 | exact Hc2 |].
+  exact (operation_list_needs_a_name (c :: w) Hb).
 Qed.
 
 (* the hypotheses are met by ordinary typos: {bogus}, {Upper}, { upper}, {!uper|lower}, {:x} *)
